@@ -28,6 +28,10 @@ struct Case {
   op: Un,
   cold: Option<Vec<Ev>>,
   pcase: PCase,
+  /// items on whose delivery the subscriber itself sends item + 5000 into the hot source, from inside its callback
+  /// (observe_on / delay forms over a hot source only: there the callback runs in a scheduled task, not inside the
+  /// source's own emission, so this is not re-entrant for the Subject)
+  fb: Vec<i64>,
 }
 
 fn gen_case(c: &mut dyn Choices) -> Case {
@@ -115,7 +119,21 @@ fn gen_case(c: &mut dyn Choices) -> Case {
     burst.extend(script);
     script = burst;
   }
-  Case { op: op.clone(), cold, pcase: PCase { node: Node::Un(op, tf, Box::new(src)), kinds: vec![IKind::Subject], script, mode, threads } }
+  // (appended picks) one hot observe_on / delay case in four has a consumer that feeds the source from its callback
+  let mut fb = vec![];
+  if !is_sub && cold.is_none() && c.pick(4) == 3 {
+    let ids: Vec<i64> = script.iter().filter_map(|s| if let Step::Emit(_, Ev::N(V::I(n))) = s { Some(*n) } else { None }).collect();
+    if !ids.is_empty() {
+      let k = 1 + c.pick(2);
+      for _ in 0..k {
+        let id = ids[c.pick(ids.len())];
+        if !fb.contains(&id) {
+          fb.push(id);
+        }
+      }
+    }
+  }
+  Case { op: op.clone(), cold, pcase: PCase { node: Node::Un(op, tf, Box::new(src)), kinds: vec![IKind::Subject], script, mode, threads }, fb }
 }
 
 fn op_name(op: &Un) -> &'static str {
@@ -158,12 +176,24 @@ fn judge(case: &Case, tr: &Trace, ctx: &Ctx, notes: &mut Vec<String>) -> Result<
   match &case.cold {
     Some(evs) => {}
     None => {
+      // script emissions of a step come first, then what the consumer fed back while that step was processed
+      // (its production time is the virtual time of the delivery that triggered it); a hot source ignores
+      // everything after its terminal
       for (k, s) in case.pcase.script.iter().enumerate() {
         if let Step::Emit(_, ev) = s {
           src.push((k as i64, vt[k], ev.clone()));
           if ev.is_terminal() {
             break;
           }
+        }
+        for (_, ft, v) in tr.fb.iter().filter(|(fk, _, _)| *fk == k) {
+          src.push((k as i64, *ft, Ev::N(v.clone())));
+        }
+      }
+      // fed back during the final drain (stamped with the step after the script)
+      if !src.last().map(|(_, _, e)| e.is_terminal()).unwrap_or(false) {
+        for (_, ft, v) in tr.fb.iter().filter(|(fk, _, _)| *fk >= case.pcase.script.len()) {
+          src.push((case.pcase.script.len() as i64, *ft, Ev::N(v.clone())));
         }
       }
     }
@@ -311,9 +341,12 @@ fn base_name(n: &str) -> &str {
 
 fn run_case(c: &mut dyn Choices, ctx: &Ctx) -> Outcome {
   let case = gen_case(c);
-  let res = run_pcase(&case.pcase, false);
+  let res = crate::common::run_pcase_fb(&case.pcase, false, &case.fb);
   let mut notes = vec![];
   let mut labels: Vec<&'static str> = vec![op_name(&case.op)];
+  if !case.fb.is_empty() {
+    labels.push("consumer-feeds-source");
+  }
   labels.push(match case.pcase.mode {
     SchedMode::Fifo => "mode:fifo",
     SchedMode::Lazy => "mode:lazy",
@@ -363,8 +396,14 @@ fn run_case(c: &mut dyn Choices, ctx: &Ctx) -> Outcome {
       .as_ref()
       .map(|t| json!(t.recs.iter().map(|r| format!("{}@{} t={}", ev_short(&r.ev), if r.step == usize::MAX { -1 } else { r.step as i64 }, r.vt)).collect::<Vec<_>>()))
       .unwrap_or_else(|m| json!({ "panic": m }));
+    if !case.fb.is_empty() {
+      j["consumer_sends_item_plus_5000_into_the_source_on_receiving"] = json!(case.fb);
+    }
     if let Ok(t) = &res {
       j["timer_requests_ticks"] = json!(t.requested);
+      if !case.fb.is_empty() {
+        j["fed_back(step, t, item)"] = json!(t.fb.iter().map(|(k, vt, v)| format!("{}@{} t={}", v_short(v), k, vt)).collect::<Vec<_>>());
+      }
     }
     Some(j)
   } else {
